@@ -35,7 +35,7 @@ func simProcessSetup() {
 	runtime.GOMAXPROCS(1)
 	debug.SetMaxStack(256 << 20)
 	debug.SetGCPercent(200)
-	simrt.DefaultHeapLimit = 2 << 30
+	simrt.DefaultHeapLimit = 3 << 29
 }
 
 func hasKey(vs []Violation, key string) bool {
@@ -58,6 +58,8 @@ func executeRun(c Check, phase string, index uint64, t *Tape, world string, stat
 		stats["discarded_heap_safety_limit"]++
 		res.Violations = nil
 		res.Nontrivial = false
+		res.EventHash = 0 // when the limit strikes depends on the garbage collector: such a run has no pinned log
+		res.Steps = 0
 		runtime.GC()
 	}
 	if simrt.SimLimit != "" {
